@@ -203,6 +203,13 @@ def make_pair(edit, pos):
         return base, model(rec, "Data", steps_after="    last: Color\n    more: !vector {items: int}\n")
     if e == "add_optional_step":
         return base, model(rec, "Data", steps_after="    last: Color\n    more: [null, string]\n")
+    ADDED = {"add_aliased_vector_step": ("Samples: float*\n", "Samples"), "add_alias_of_alias_vector_step": ("Samples: float*\nSeries: Samples\n", "Series"),
+             "add_generic_alias_vector_step": ("SeriesOf<T>: T*\n", "SeriesOf<float>"), "add_aliased_optional_step": ("MaybeNote: string?\n", "MaybeNote"),
+             "add_generic_alias_optional_step": ("MaybeOf<T>: T?\n", "MaybeOf<Data>"), "add_vector_of_records_step": ("", "!vector {items: Data}"),
+             "add_fixed_vector_step": ("", "!vector {items: int, length: 3}")}
+    if e in ADDED:
+        defs, ty = ADDED[e]
+        return base, model(rec + defs, "Data", steps_after="    last: Color\n    more: %s\n" % ty)
     if e == "add_required_field":
         return base, model(rec + "    d: string\n", "Data")
     if e == "remove_required_field":
